@@ -2,7 +2,7 @@
 (* WIRE engine=115 fn=dispatch_c15 *)
 From Coq Require Import List NArith ZArith Bool.
 From RPFT Require Import Base.Sexp Base.PyStr Base.Result Base.Json Gen.Tables
-  Io.CliFlow Io.CliIndex Io.CliJson Io.Cli.
+  Io.CliLog Io.CliFlow Io.CliIndex Io.CliJson Io.Cli.
 Import ListNotations.
 Local Open Scope N_scope.
 
@@ -173,5 +173,28 @@ Definition dispatch_c15 (fn : N) (args : list sexp) : sexp :=
               | Some t => enc_option enc_json (parse_json t)
               | None => s_badinput
               end
+  (* 5: the invocation environments of the regenerated table as the model reads them:
+        (id, start, does a CRITICAL record end the process with a non-zero status, the status with
+        which a CRITICAL record / the failed start ends it, is it like the default configuration,
+        digest of the names of the matrix) *)
+  | 5, [] =>
+    L [A c15_log_configs_digest;
+       enc_list (fun c : log_config =>
+                   L [A (lc_id c); A (lc_start c); enc_bool (stops_at c lvl_critical);
+                      A (match (if started c then log_at c lvl_critical else Some (snd (lc_observed c))) with
+                         | Some e => e | None => 0 end);
+                      enc_bool (like_default c)]) log_configs]
+  (* 6: the command under configuration i: fuel dm workbook (optional old content) i ->
+        (1 status (optional new content)) | (0) = the model does not say *)
+  | 6, [A fuel; dm; wb; old; A i] =>
+    match dec_dm dm, dec_workbook wb, dec_option dec_str old, find_config i with
+    | Some dm', Some wb', Some old', Some cfg =>
+      let fs0 : fs := match old' with Some c => [(out_path, c)] | None => [] end in
+      match cli_in cfg (N.to_nat fuel) wb' dm' out_path fs0 with
+      | Some r => L [A 1; A (fst r); enc_option enc_str (fs_read (snd r) out_path)]
+      | None => L [A 0]
+      end
+    | _, _, _, _ => s_badinput
+    end
   | _, _ => s_badinput
   end.
